@@ -592,6 +592,19 @@ impl<'a, 'ast> Visit<'ast> for Rewriter<'a> {
         self.visit_macro(&m.mac);
     }
 
+    fn visit_expr_path(&mut self, p: &'ast ExprPath) {
+        // R-capture: every other use of such a variable (read, assignment target) is a use of `*X`
+        if let Some(id) = p.path.get_ident() {
+            if self.cfg.capture_mut.iter().any(|x| id == x) {
+                let r = self.r(p.span());
+                self.edits.replace(r, vec![Piece::Lit(format!("(*{})", id))], "R-capture");
+                self.note("R-capture", p.span());
+                return;
+            }
+        }
+        visit::visit_expr_path(self, p);
+    }
+
     fn visit_expr_reference(&mut self, e: &'ast ExprReference) {
         // R-capture: a variable that a `move` closure captures and mutates is a `&mut` parameter of the wrapped
         // function; `&mut X` on such a variable is `&mut *X`
